@@ -13,9 +13,9 @@ LEVEL = 'fault_enumeration'
 RUNS = {'quick': 320, 'thorough': 1600}
 CHUNK = 1
 RECHECK_MOD = 53
-PROBES = ['cut_in_header', 'cut_in_threadmap', 'cut_in_stackshot_scan', 'cut_in_chunkhdr', 'cut_in_record',
+PROBES = ['cut_in_header', 'cut_in_threadmap', 'cut_in_stackshot_scan', 'cut_after_complete_old_capture_in_stackshot', 'cut_in_chunkhdr', 'cut_in_record',
           'cut_at_record_boundary', 'cut_in_block', 'cut_in_pad', 'eio_fired', 'count_limit', 'v2', 'v3',
-          'cut_in_event_tag_scan', 'cli_run', 'many_chunks', 'dump_with_orphan_ends', 'unbuffered_reader']
+          'cut_in_event_tag_scan', 'cli_run', 'cli_run_with_filters', 'many_chunks', 'dump_with_orphan_ends', 'unbuffered_reader']
 RULE = ('one run = one simulated dump (SimKernel threads -> merged stream -> v2/v3 writer) with every cut offset '
         '0..len (thorough) or all structure boundaries +-2 plus a seeded sample (quick), each parsed through SimReader '
         'under a read budget of 2*len+4096 calls and 3*len+4096 bytes; non-trivial = the dump holds >= 1 record and >= 1 cut landed '
@@ -218,6 +218,13 @@ def execute(scn):
     shapes = set()
     cuts = _pick_cuts(scn, layout, n)
     inside = 0
+    # does the stackshot hold a complete look-alike of a thread map followed by an event chunk?  (offset of its end inside it)
+    complete_decoy_end = None
+    f1 = bytes.fromhex(scn['writer'].get('filler1', '')) if scn['writer'].get('version') == 3 else b''
+    a_ = f1.find(b'\x00\x1d\x00\x00\x00\x00\x00\x00')
+    b_ = f1.find(b'\x00\x1e\x00\x00\x00\x00\x00\x00', a_ + 16) if a_ >= 0 else -1
+    if b_ >= 0 and len(f1) >= b_ + 24 + 64:
+        complete_decoy_end = b_ + 24 + 64
     for k in cuts:
         region, off, rlen = _region(layout, k)
         deep = (scn['cuts'] != 'all') or region != 'record' or off in (0, 1, 63) or (k % 8 == 0)
@@ -226,6 +233,8 @@ def execute(scn):
             inside += 1 if off else 0
         elif region == 'stackshot':
             bump('probe:cut_in_stackshot_scan')
+            if complete_decoy_end is not None and k - (k - off) > complete_decoy_end:
+                bump('probe:cut_after_complete_old_capture_in_stackshot')
             inside += 1
         elif region == 'chunkhdr':
             bump('probe:cut_in_chunkhdr')
@@ -355,6 +364,27 @@ def execute(scn):
                         viols.append({'tag': 'cli-not-prefix', 'sig': 'v%d:%s' % (ver, cmd[0]),
                                       'detail': 'file cut at %d: CLI printed text that is not a prefix of its output on the whole file' % k})
                 hist.append(['cli', cmd[0], len(whole)])
+            # the count limit together with filters: still the first lines of the unlimited listing under the same filters
+            names = [t[2] for t in scn['writer'].get('tmap', []) if t[2] and not t[2].startswith('-')]
+            fcmds = [['traces', '--no-color', '-cf', '4'], ['traces', '--no-color', '-sf', '0x40c'], ['kevents', '-cf', '4', '-cf', '1'],
+                     ['traces', '--no-color', '-cf', '1', '-cf', '0x1f']]
+            if names:
+                fcmds += [['traces', '--no-color', '--process', names[0]], ['callstacks', '--process', names[-1]]]
+            threads_tids = [th['tid'] for th in scn.get('threads', []) if th['tid'] < 1 << 62]
+            if threads_tids:
+                fcmds.append(['traces', '--no-color', '--tid', str(threads_tids[0]), '-cf', '4'])
+            for cmd in fcmds:
+                whole, wexc = run_cli(data, cmd)
+                bump('probe:cli_run_with_filters')
+                nl = whole.count('\n')
+                for c in sorted(set(scn.get('counts', [])[:3] + [2, 3])):
+                    part, exc = run_cli(data, cmd + ['-c', str(c)])
+                    if not whole.startswith(part) or (wexc is None and cmd[0] != 'callstacks' and part.count('\n') != min(c, nl)):
+                        viols.append({'tag': 'cli-count-limit-changes-lines', 'sig': ' '.join(cmd[:1] + [x for x in cmd[1:] if x.startswith('-')]),
+                                      'detail': '%r: -c %d printed %d lines %r..., unlimited prints %d lines %r...' % (
+                                          cmd, c, part.count('\n'), part[:80], nl, whole[:80])})
+                        break
+                hist.append(['cli', ' '.join(cmd), len(whole)])
     return {'violations': viols, 'digest': digest_of(scn, hist), 'stats': stats,
             'nontrivial': len(rb) >= 1 and inside >= 1, 'shape': '|'.join(sorted(shapes))[:400],
             'extent': {'records_delivered': len(rb) * len(cuts), 'cuts': len(cuts), 'file_bytes': n}}
